@@ -120,7 +120,10 @@ var authModes = []authMode{
 
 type bundleKind int // 0: one file [A]; 1: two files [A],[B]; 2: one file holding A and B
 
-var bundleNames = []string{"one-file[A]", "two-files[A][B]", "one-file[A+B]"}
+var bundleNames = []string{"one-file[A]", "two-files[A][B]", "one-file[A+B]",
+	"three-files[clientCA][A-without-final-newline][B]", "two-files[A-without-final-newline][B-without-final-newline]"}
+
+const nBundles = 5
 
 type srvSpec struct {
 	id   identity
@@ -375,6 +378,9 @@ func (h *harness) runCase(class string, b bundleKind, eps []int, specs []srvSpec
 	if b != 0 {
 		bundleIDs = append(bundleIDs, core.GN(idCAB))
 	}
+	if b == 3 {
+		bundleIDs = append(bundleIDs, core.GN(idClientCA))
+	}
 	env := core.GApp("mkEnv", core.GList(bundleIDs), core.GList([]string{core.GN(idSystem)}), core.GN(idClientCA), core.GZ(h.p.now.Unix()))
 	c.Case(class,
 		core.GApp("CTls", env, core.GList(epTerms), core.GList(obs), core.GBool(serr != nil), core.GList(certIDs)),
@@ -410,7 +416,14 @@ func run(c *core.Ctx) {
 	must(err)
 	fab, err := casim.WriteFile(dir, "ca-a+b.pem", append(append([]byte{}, h.p.caA.PEM...), h.p.caB.PEM...))
 	must(err)
-	h.bundles = [][]string{{fa}, {fa, fb}, {fab}}
+	// PEM files need not end in a newline
+	fan, err := casim.WriteFile(dir, "ca-a-no-newline.pem", bytes.TrimRight(h.p.caA.PEM, "\r\n"))
+	must(err)
+	fbn, err := casim.WriteFile(dir, "ca-b-no-newline.pem", bytes.TrimRight(h.p.caB.PEM, "\r\n"))
+	must(err)
+	fcc, err := casim.WriteFile(dir, "ca-client.pem", h.p.clientCA.PEM)
+	must(err)
+	h.bundles = [][]string{{fa}, {fa, fb}, {fab}, {fcc, fan, fb}, {fan, fbn}}
 	h.keys, err = casim.NewSSHKeys(len(ips), 0) // server at address i answers with certificate i+1
 	must(err)
 	h.farm, err = casim.NewFarm(ips)
@@ -445,7 +458,7 @@ func run(c *core.Ctx) {
 
 	if c.Thorough() {
 		// the full matrix, each cell at three positions, plus every position for every identity
-		for b := bundleKind(0); b < 3; b++ {
+		for b := bundleKind(0); b < nBundles; b++ {
 			for id := identity(0); id < nIdentities; id++ {
 				for vr := range vranges {
 					for au := range authModes {
@@ -464,20 +477,25 @@ func run(c *core.Ctx) {
 		// covering sample: every identity (x both bundle sizes), every protocol range, every
 		// client-auth mode, each at an impostor-before-genuine position, then mixed cells
 		for id := identity(0); id < nIdentities; id++ {
-			runPattern("identity", bundleKind(int(id)%3), srvSpec{id, 3, 1}, patterns[1])
+			runPattern("identity", bundleKind(int(id)%nBundles), srvSpec{id, 3, 1}, patterns[1])
 		}
 		runPattern("identity", 0, srvSpec{idByB, 3, 0}, patterns[1]) // CA B is foreign to the one-file bundle
 		runPattern("identity", 1, srvSpec{idByB, 3, 0}, patterns[0])
 		runPattern("identity", 2, srvSpec{idByB, 1, 2}, patterns[0])
+		for _, b := range []bundleKind{3, 4} {
+			runPattern("identity", b, srvSpec{idByA, 3, 1}, patterns[1])
+			runPattern("identity", b, srvSpec{idByB, 3, 1}, patterns[0])
+			runPattern("identity", b, srvSpec{idByForeign, 3, 1}, patterns[1])
+		}
 		for vr := range vranges {
-			runPattern("protocol", bundleKind(vr%3), srvSpec{idByA, vr, vr % 3}, patterns[1+vr%3])
+			runPattern("protocol", bundleKind(vr%nBundles), srvSpec{idByA, vr, vr % 3}, patterns[1+vr%3])
 		}
 		for au := range authModes {
-			runPattern("client-auth", bundleKind(au%3), srvSpec{idByA, 1 + au%3, au}, patterns[(au+1)%len(patterns)])
+			runPattern("client-auth", bundleKind(au%nBundles), srvSpec{idByA, 1 + au%3, au}, patterns[(au+1)%len(patterns)])
 		}
 		for i := 0; i < 300; i++ {
 			s := srvSpec{identity(r.Intn(int(nIdentities))), r.Intn(len(vranges)), r.Intn(len(authModes))}
-			runPattern("mixed", bundleKind(r.Intn(3)), s, patterns[r.Intn(len(patterns))])
+			runPattern("mixed", bundleKind(r.Intn(nBundles)), s, patterns[r.Intn(len(patterns))])
 		}
 	}
 	// lists made of several different impostors, with or without a genuine endpoint at the end
@@ -491,7 +509,7 @@ func run(c *core.Ctx) {
 		if r.Intn(2) == 0 {
 			specs[L-1] = srvSpec{core.Pick(r, idByA, idByA, idByB), core.Pick(r, 1, 2, 3, 4), r.Intn(5)}
 		}
-		h.runCase("several-impostors", bundleKind(r.Intn(3)), perm[:L], specs)
+		h.runCase("several-impostors", bundleKind(r.Intn(nBundles)), perm[:L], specs)
 	}
 }
 
